@@ -162,8 +162,8 @@ static int fragments_needed_three_data(xor_code_t *code_desc, int *missing_data,
     *data_bm |= code_desc->parity_bms[parity_index-code_desc->k];
   } else {
     // Include both parity elements
-    *parity_bm |= (1 << (contains_2d-code_desc->k));
-    *parity_bm |= (1 << (contains_3d-code_desc->k));
+    *parity_bm |= (1 << contains_2d);
+    *parity_bm |= (1 << contains_3d);
     // And all other data elements that didn't cancel out
     *data_bm |= tmp_parity_bm;
   }
@@ -183,7 +183,20 @@ static int fragments_needed_one_data_local(xor_code_t *code_desc,
 {
   int *missing_data = get_missing_data(code_desc, fragments_to_exclude);
   int *missing_parity = get_missing_parity(code_desc, fragments_to_exclude);
-  int parity_index = index_of_connected_parity(code_desc, fragment_to_reconstruct, missing_parity, missing_data);
+  int parity_index;
+  int i = 0;
+
+  // The element to reconstruct is unavailable as well: a usable parity
+  // equation must not contain any other unavailable data element
+  while (missing_data[i] > -1 && missing_data[i] != fragment_to_reconstruct) {
+    i++;
+  }
+  if (missing_data[i] < 0 && i < MAX_DATA - 1) {
+    missing_data[i] = fragment_to_reconstruct;
+    missing_data[i + 1] = -1;
+  }
+
+  parity_index = index_of_connected_parity(code_desc, fragment_to_reconstruct, missing_parity, missing_data);
   free(missing_data);
   free(missing_parity);
 
